@@ -1,20 +1,23 @@
 #!/usr/bin/env python3
-"""tool/add_refactors.py <ID>...: registers refactors/<ID>/r*.diff as silent self-test mutants of check <ID>."""
+"""tool/add_refactors.py <dir> <ID>...: registers <dir>/<ID>/r*.diff (dir = refactors | refactors2) as silent self-test
+mutants of check <ID>."""
 import json, os, sys, glob
-for pid in sys.argv[1:]:
+base = sys.argv[1]
+for pid in sys.argv[2:]:
     p = "/verif/mutants/%s.json" % pid
     m = json.load(open(p))
     names = {x["name"] for x in m}
     meta = {}
-    mp = "/verif/refactors/%s/meta.json" % pid
+    mp = "/verif/%s/%s/meta.json" % (base, pid)
     if os.path.exists(mp):
         try:
             for r in json.load(open(mp)).get("refactorings", []):
                 meta[r.get("file")] = "%s: %s" % (r.get("where", ""), r.get("kind", ""))
         except Exception:
             pass
-    for d in sorted(glob.glob("/verif/refactors/%s/r*.diff" % pid)):
-        name = "refactor-%s" % os.path.basename(d)[:-5]
+    tag = "" if base == "refactors" else "2"
+    for d in sorted(glob.glob("/verif/%s/%s/r*.diff" % (base, pid))):
+        name = "refactor%s-%s" % (tag, os.path.basename(d)[:-5])
         if name in names:
             continue
         m.append(dict(name=name, patch=os.path.relpath(d, "/verif"), expect="", silent=True,
